@@ -37,7 +37,7 @@ MsgUnits ==
     \cup {U("fail", "", 0, "", e.code, e.ext) : e \in FailErrs}
     \cup {U("bad", "", 0, k, KindCode(k), 0) : k \in BadKinds}
 
-DevUnits == {U("setcond", r, v, "", 0, 0) : r \in Regs, v \in (RegVals \cap 0..65535)} 
+DevUnits == {U(op, r, v, "", 0, 0) : op \in {"setcond", "setbits", "clrbits"}, r \in Regs, v \in (RegVals \cap 0..65535)}
 
 EmitEdge(u, mav, ret, resps, post) ==
     IF Emit THEN PrintT(ToJson([pre |-> StJson(st), u |-> u, mav |-> mav, ret |-> ret,
@@ -46,7 +46,10 @@ EmitEdge(u, mav, ret, resps, post) ==
 
 (* ghost update: which bits of register r make a filtered transition in this device step *)
 LatAfterDev(u) ==
-    LET g == Reg(st, u.r)  v == ToBits(u.v, 16)
+    LET g == Reg(st, u.r)
+        v == CASE u.op = "setcond" -> ToBits(u.v, 16)
+               [] u.op = "setbits" -> g.cond \cup ToBits(u.v, 16)
+               [] u.op = "clrbits" -> g.cond \ ToBits(u.v, 16)
         t == {b \in Bit16 : (b \in v /\ b \notin g.cond /\ b \in g.ptr) \/ (b \notin v /\ b \in g.cond /\ b \in g.ntr)}
     IN [lat EXCEPT ![u.r] = @ \cup t]
 
